@@ -11,7 +11,8 @@ from sim.choices import Choices, hash64
 from sim.procs import template_init
 
 PDKS = ["sample", "sky130", "gf180", "asap7"]
-BAD_EXC = ("StopIteration", "IndexError", "AttributeError", "UnboundLocalError", "KeyError", "TypeError", "NameError")
+# "descriptive error": one that a `raise` statement reports with a message, as opposed to an
+# exception that escaped from an operation which happened to fail (interp.deliberate)
 
 
 def pdk_module(name):
@@ -363,8 +364,8 @@ def execute(scn):
                 except Exception as e:  # noqa
                     exc = interp.norm_exc(e)
                     if bogus and pname == target and compiled_with is None:
-                        if exc[0] in BAD_EXC or not exc[1].strip():
-                            fail("undescriptive-error", f"unsatisfiable request raised {exc[0]}: {exc[1][:100]!r}")
+                        if not interp.deliberate(e) or not exc[1].strip():
+                            fail("undescriptive-error", f"unsatisfiable request raised {exc[0]}: {exc[1][:100]!r} (not reported by a raise statement, or without a message)")
                         else:
                             probe("unsatisfiable_request_refused")
                         res["nontrivial"] = True
